@@ -36,6 +36,7 @@ type hookProgram struct {
 	NetErr           bool    `json:"netErr"`
 	OmitStatus       bool    `json:"omitStatus"`
 	CustomizeBody    string  `json:"customizeBody"` // answer of the customize hook (default: no related resources)
+	Reverse          bool    `json:"reverse"`       // template: list the children highest index first
 }
 
 func (h *hookProgram) answer(url string, req J) (int, map[string]string, []byte, bool) {
@@ -118,6 +119,11 @@ func (h *hookProgram) templateAnswer(req J) []byte {
 				sp["note"] = note
 			}
 			cl = append(cl, c)
+		}
+	}
+	if h.Reverse {
+		for i, j := 0, len(cl)-1; i < j; i, j = i+1, j-1 {
+			cl[i], cl[j] = cl[j], cl[i]
 		}
 	}
 	resp := J{"children": cl}
